@@ -72,7 +72,8 @@ class Insn:
         k, a = self.kind, self.a
         return {"esave": lambda: enc_mov_store(*a), "save": lambda: enc_mov_store(*a), "push": lambda: enc_push(*a),
                 "sub": lambda: enc_sub_rsp(*a), "leafp": lambda: enc_lea_fp_rsp(*a), "add": lambda: enc_add_rsp(*a),
-                "learsp": lambda: enc_lea_rsp_fp(*a), "pop": lambda: enc_pop(*a), "ret": lambda: RET, "jmp": lambda: JMP,
+                "learsp": lambda: enc_lea_rsp_fp(*a), "pop": lambda: enc_pop(*a), "ret": lambda: RET,
+                "jmp": lambda: (bytes([0xE9]) + (a[0] & 0xffffffff).to_bytes(4, "little")) if a else JMP,
                 "load": lambda: enc_mov_load(*a), "call": lambda: (bytes([0xE8]) + a[0]) if a else CALL,
                 "nop": lambda: a[0] if a else NOP,
                 "alloca": lambda: enc_sub_rsp(*a)}[k]()
@@ -216,7 +217,12 @@ def make_func(rng, name, shape=None, force=None):
             reg.emit(Insn("add", alloc + extra), "epilog")
         for r in reversed(pushes):
             reg.emit(Insn("pop", r), "epilog")
-        reg.emit(Insn(term), "epilog")
+        if term == "jmpself":
+            # a tail call to the function's own first instruction (self recursion in tail position): the one jump that
+            # stays inside the function's range and still ends an epilog (seeded change C03-18 took it for a branch)
+            reg.emit(Insn("jmp", -(reg.length + 5)), "epilog")
+        else:
+            reg.emit(Insn(term), "epilog")
     if rng.chance(1, 3):
         # a long body: offsets beyond 0x100 / 0x200 whose low byte is smaller than the prolog's code offsets
         for j in range(rng.choice([130, 280])):
@@ -229,7 +235,7 @@ def make_func(rng, name, shape=None, force=None):
         # the hot region jumps to a cold region placed elsewhere; the cold region's info chains to the primary
         r0.emit(filler(rng), "body")
         if rng.chance(1, 2):
-            epilog(r0, 0, rng.choice(["ret", "ret", "jmp"]))
+            epilog(r0, 0, rng.choice(["ret", "ret", "jmp", "jmpself"]))
         else:
             r0.emit(call(rng), "body")          # ends with a call that does not return
         r1 = Region()
@@ -254,7 +260,7 @@ def make_func(rng, name, shape=None, force=None):
         if rng.chance(1, 6):
             r0.emit(call(rng), "body")          # noreturn call: the return address is the end of the function
         else:
-            epilog(r0, 0, rng.choice(["ret", "ret", "jmp"]))
+            epilog(r0, 0, rng.choice(["ret", "ret", "jmp", "jmpself"]))
     return f
 
 def make_program(rng, nfuncs=8, only=None):
